@@ -457,6 +457,17 @@ def compare_terms(self, o, left, right):
         return r if o == 'in' else T.mk_not(r)
     if o in ('is', 'is not'):
         la, ra = left.single_atom(), right.single_atom()
+        if ra is not None and ra.kind == 'none' and la is not None and la.kind == 'sub' and self.frames:
+            # an item of the tuple an opaque package function returns: look at what the function returns
+            ba_ = la.args[0].single_atom()
+            k_ = la.args[1].const()
+            if ba_ is not None and ba_.kind == 'call' and k_ is not None and k_.denominator == 1:
+                from .sva_call import _arity_of_package_call
+                inl = _arity_of_package_call(self, la.args[0], ast.parse('f()', mode='eval').body, self.frames[-1], want='value')
+                if inl is not None:
+                    item = self.subscript(inl, la.args[1])
+                    if T._known_not_none(item):
+                        return FALSE if o == 'is' else TRUE
         if ra is not None and ra.kind == 'none' and la is not None and la.kind in (
                 'closure', 'new', 'tuple', 'list', 'dict', 'str', 'bool', 'func', 'class'):
             return FALSE if o == 'is' else TRUE
